@@ -199,3 +199,30 @@ class SymbolicChooser(BaseChooser):
             r = True if x == v else False
         self._sliced(r)
         return r
+
+
+class ForcedChooser(object):
+    """A view of another chooser in which some decisions are forced (used for twin runs that
+    share every other decision variable with the first run)."""
+
+    def __init__(self, base, forced):
+        self.base = base
+        self.forced = dict(forced)
+        self.symbolic = base.symbolic
+
+    @property
+    def log(self):
+        return self.base.log
+
+    def flag(self, key):
+        if key in self.forced:
+            return bool(self.forced[key])
+        return self.base.flag(key)
+
+    def pick(self, key, n):
+        if key in self.forced:
+            return int(self.forced[key])
+        return self.base.pick(key, n)
+
+    def lazy(self, key):
+        return self.base.lazy(key)
